@@ -59,7 +59,7 @@ func runWorld(t *testing.T, o *sim.Outcome, p *GPlan, fr *fresh, exec string, ex
 		o.SimTimeS += sim.SimNow()
 	})
 	if fail != "" {
-		o.Fail("harness.bubble", "bubble", 0, "%s", fail)
+		failBubble(o, fail)
 	}
 	return w
 }
@@ -287,4 +287,14 @@ func phaseAt(w *world, last int) string {
 		return "-"
 	}
 	return w.runs[last].faults[0].phase
+}
+
+// failBubble classifies the failure of a bubble: a deadlock (every goroutine of the simulated world blocked
+// for ever) means an operation of the code under test never completed.
+func failBubble(o *sim.Outcome, fail string) {
+	if strings.Contains(fail, "deadlock") {
+		o.Fail("any.stalled", "stalled", 0, "the simulated world came to a standstill: an operation never completed (%s)", fail)
+		return
+	}
+	o.Fail("harness.bubble", "bubble", 0, "%s", fail)
 }
